@@ -189,6 +189,15 @@ pub const POSITIONS: &[(&str, &str)] = &[
 pub const FRONT_ERRORS: &[(&str, &str)] = &[
     ("unexpected character", "x := &\n"),
     ("unexpected character at file end", "x := 1\n!"),
+    ("invalid escape as the last character of the file", "x := 1\ny := \"total: 5\\q"),
+    ("invalid hex digit as the last character of the file", "y := \"a\\xg"),
+    ("second hex digit invalid as the last character of the file", "y := \"a\\x4z"),
+    ("unescaped dollar as the last character of the file", "y := \"cost $"),
+    ("bad slot start as the last character of the file", "y := $\"a$x"),
+    ("unescaped dollar first on the last line of the file", "y := \"a\n$"),
+    ("invalid escape after a multi-byte character at the end of the file", "y := \"é€\\q"),
+    ("unexpected character as the only character", "&"),
+    ("unexpected character last after a multi-byte comment", "# é\nx := 1 ~"),
     ("invalid escape", "x := \"\\q\"\n"),
     ("invalid hex digit", "x := \"\\xg1\"\n"),
     ("unescaped dollar", "x := \"a$b\"\n"),
@@ -338,7 +347,15 @@ pub fn judge(c: &Case, r: &RefOutcome, o: &CliOutcome) -> Verdict {
                 return viol("internal-identifier", format!("{}: the message is not human-readable text about the construct ({}): {:?}", c.meta, why, first));
             }
             match res {
-                RefResult::Front(_) => {
+                RefResult::Front(fe) => {
+                    // a lexical error points at the offending character (end of line / end of
+                    // input: convention open)
+                    if let crate::refm::parse::FrontErr::Lex(le) = fe {
+                        let at_end = crate::layout::pos_to_off(&c.src, le.pos).map(|o| o >= c.src.len()).unwrap_or(true);
+                        if !le.at_newline && !at_end && pos != le.pos {
+                            return viol("line-range", format!("{}: the offending character is at {}:{}, the diagnostic points at {}:{}: {:?}", c.meta, le.pos.0, le.pos.1, pos.0, pos.1, first));
+                        }
+                    }
                     if lines.len() != 1 || in_fn.is_some() {
                         return viol("format", format!("{}: a lexical / syntax error is exactly one line: {:?}", c.meta, stderr));
                     }
